@@ -51,6 +51,7 @@ class Gen:
         self.scope = 0        # id of the block body being generated (0 = root); refs without address override need it
         self.scopes = 0
         self.scope_of = {}    # object name -> scope it was declared in
+        self.block_span = {}  # block name -> span of ONE instance of its contents (relative addresses 0..span)
 
     def name(self):
         return self.names.pop() if self.names else None
@@ -280,7 +281,24 @@ class Gen:
             if mode == "full" and rng.random() < 0.5:
                 ov["allow_address_overlap"] = True
             return adef.mk_ref(name, t["name"], ov)
-        return adef.mk_ref(name, t["name"], {"kind": "block", "address_offset": 5000 + rng.randrange(0, 1000)})
+        # a block ref instantiates the target's objects again at the ref's own offset (and repeat): place it after
+        # everything declared so far in this scope, and reserve the target's span
+        used = self.block_span.get(t["name"], 50)
+        base = max(self.next_addr.values()) + rng.choice([0, 1, 10])
+        ov = {"kind": "block", "address_offset": base}
+        span = used
+        if p.repeats and rng.random() < 0.35:
+            count = rng.choice([0, 1, 2, 3])
+            ov["repeat"] = {"count": count, "stride": used + rng.choice([0, 1, 4])}
+            span = ov["repeat"]["stride"] * max(count, 1)
+        elif t.get("repeat"):
+            span = t["repeat"]["stride"] * max(t["repeat"]["count"], 1)
+            if rng.random() < 0.3:
+                del ov["address_offset"]          # keeps the target's offset: only legal where that does not collide
+                ov["repeat"] = {"count": 1, "stride": used}
+                ov["address_offset"] = base
+        self.next_addr = {k2: base + span + 1 for k2 in self.next_addr}
+        return adef.mk_ref(name, t["name"], ov)
 
     def ref_family(self, cfg, reg_unsigned):
         """Two or three refs to ONE register / command with complementary override sets, in random order."""
@@ -307,6 +325,9 @@ class Gen:
         for _ in range(n):
             if len(self.names) < 2:
                 break
+            if p.block_refs and self.blocks and rng.random() < 0.15:
+                out.append(self.ref(cfg, reg_unsigned, target=("block", rng.choice(self.blocks))))
+                continue
             r = rng.random()
             if r < 0.45:
                 out.append(self.register(cfg, reg_unsigned))
@@ -341,6 +362,7 @@ class Gen:
                 base = max(saved.values()) + rng.choice([0, 1, 10])
                 self.next_addr = {k: base + span + 1 for k in saved}
                 b = adef.mk_block(name, inner, address_offset=base if (base or rng.random() < 0.5) else None, repeat=rep)
+                self.block_span[name] = used
                 self.blocks.append(b)
                 out.append(b)
         return out
